@@ -35,6 +35,7 @@ type StoreExp struct {
 	Co     []int   `json:"co"` // collection content
 	Sn     []SnapX `json:"sn"`
 	Ex     []bool  `json:"ex"`
+	Keep   []bool  `json:"keep"` // files that exist once pending removals have happened
 }
 type StoreStep struct {
 	Act string          `json:"act"`
@@ -52,6 +53,7 @@ type StoreDims struct {
 	BufPages  int    `json:"bufPages"`  // CompactionBufferPages
 	CompSync  bool   `json:"compSync"`  // CompactionSync
 	Seed      int64  `json:"seed"`
+	CheckFiles bool  `json:"checkFiles"` // compare the directory listing with the model's (C07)
 	ROJunk    bool   `json:"roJunk"`    // drop junk files next to the data files before a read-only open
 }
 
@@ -84,6 +86,8 @@ type StoreSession struct {
 	inflight string // kind of the round begun and not yet finished
 	pend   bool
 	closedColl bool
+	roRemovedFrom int
+	nothingCommitted bool // the model's store has never published a footer
 }
 
 func (s *StoreSession) keyBytes(k int) []byte { return []byte(fmt.Sprintf("key-%02d", k)) }
@@ -172,9 +176,13 @@ func (s *StoreSession) closeColl() error {
 	if s.coll == nil || s.closedColl {
 		return nil
 	}
-	s.sched.OpenAll()
 	done := make(chan error, 1)
+	mark := s.sched.Mark()
 	go func() { done <- s.coll.Close() }()
+	// keep the gates shut until the collection is marked closed, so that
+	// nothing more is persisted on the way out (deterministic close)
+	s.sched.AwaitEvent(mark, stepTimeout, "coll.close.begin")
+	s.sched.OpenAll()
 	select {
 	case err := <-done:
 		s.closedColl = true
